@@ -3,3 +3,4 @@ import SppModel.Model.Bits
 import SppModel.Model.Plan
 import SppModel.Model.Stream
 import SppModel.Model.Moments
+import SppModel.Model.SigprocHeader
